@@ -201,7 +201,23 @@ def handleEvalPass (j : Json) : R String := do
   if !(eqs.all fun e => supported lits e.rhs) then
     return (Json.mkObj [("ok", false), ("why", "unsupported")]).compress
   let s0 : Store Float := fun x i => ((data.lookup x).getD #[])[i.toNat]?.getD 0.0
-  let (s1, reads, writes) := evalPassR (floatOps lits) loc t eqs s0
+  -- The model's store is a function: after k dependent assignments a lookup re-evaluates the whole chain, which is
+  -- exponential in k.  The driver therefore MATERIALISES every written cell (same `denoteR`, `scriptOps`, `readSpec`,
+  -- `Idx.pos` as `assign` / `evalPassR`; last write wins) and cross-checks against `evalPassR` itself on short programs.
+  let ops := floatOps lits
+  let step := fun (acc : List ((String × Int) × Float) × List (String × Int) × List (String × Int)) (e : Equation SAtom) =>
+    let s : Store Float := fun x i => match acc.1.lookup (x, i) with | some v => v | none => s0 x i
+    let r := denoteR (scriptOps ops) (readSpec s t loc) e.rhs
+    let cell := (e.lhs.name, e.lhs.idx.pos t loc)
+    ((cell, r.1) :: acc.1, acc.2.1 ++ r.2.map (fun a => (a.name, a.idx.pos t loc)), acc.2.2 ++ [cell])
+  let (written, reads, writes) := eqs.foldl step ([], [], [])
+  let s1 : Store Float := fun x i => match written.lookup (x, i) with | some v => v | none => s0 x i
+  if eqs.length ≤ 5 then
+    let (m1, mreads, mwrites) := evalPassR ops loc t eqs s0
+    let same := mreads == reads && mwrites == writes &&
+      data.all fun (x, row) => (List.range row.size).all fun i =>
+        (m1 x (Int.ofNat i)).toBits == (s1 x (Int.ofNat i)).toBits
+    if !same then throw "materialised pass differs from the model's evalPassR"
   let outData := data.map fun (x, row) =>
     (x, Json.arr ((List.range row.size).map fun i => Json.num (JsonNumber.fromNat (s1 x (Int.ofNat i)).toBits.toNat)).toArray)
   pure (Json.mkObj [("ok", true), ("data", Json.mkObj outData), ("reads", cellsJson reads),
